@@ -36,7 +36,7 @@ META = {
                  "against a reference hash shuffle and a transcription of the staged task shuffle; replay on real dask collections "
                  "with exactly those partitions; recorded calls decided by TLC",
     "level_text": "Small-scope: TLC enumerates every key sequence over {0,1,2,NA} (quick: all frames with <= 2 rows in all patterns, a "
-                  "salted 1/16 hash sample up to 6 rows; thorough: up to 8 rows) with a second key column and unique or duplicated index "
+                  "salted 1/16 hash sample up to 6 rows; thorough: all frames with <= 3 rows, a 1/24 sample up to 8 rows) with a second key column and unique or duplicated index "
                   "labels, for shuffle(on = k | [k, k2] | index), sort_values(by = k | [k, k2], every ascending vector, na_position), "
                   "set_index(k, drop, npartitions | every covering division vector | sorted=True), drop_duplicates(subset, keep), unique, "
                   "nunique, and ALL row partitionings with <= 4 parts incl. empty ones. Each case is replayed on dask under a seeded "
@@ -393,14 +393,16 @@ def classify(case, cfg, strategy, clauses, obs):
         return "shuffle:on=%s:%s:%s:%s" % (case["on"], strategy, kind, group)
     if fam == "sort":
         # input classes behind recorded findings: the first that applies names the violation
-        if case["naf"] and has_na and group in ("order", "whole"):
-            return "sort_values:na_position=first:missing-keys:order"
         if cfg["nout"] is not None and group == "metadata":
             return "sort_values:npartitions:count"              # the root cause recorded as C41 'set_index:auto:count'
         if kind == "str" and has_na and group == "raised:ValueError":
             return "sort_values:str:missing-keys:raised:ValueError"
-        if kind == "cat" and has_na and group in ("order", "whole"):
-            return "sort_values:cat:missing-keys:order"
+        if kind in ("cat", "str") and has_na and group in ("order", "whole"):
+            return "sort_values:%s:missing-keys:order" % kind
+        if any(p and all(x == NA for x in p) for p in split([r["k"] for r in case["rows"]], cfg["layout"])) and group in ("order", "whole", "raised:IndexError"):
+            return "sort_values:partition-of-missing-keys:%s" % ("order" if group != "raised:IndexError" else group)
+        if case["naf"] and has_na and group in ("order", "whole"):
+            return "sort_values:na_position=first:missing-keys:order"
         return "sort_values:by=%s:%s:%s:%s" % (case["by"], strategy, kind, group)
     if fam == "setindex":
         if case["how"] == "auto" and has_na:
@@ -442,7 +444,7 @@ def random_items(rng, n):
 # ----------------------------------------------------------------------------- TLC
 def bounds(ctx):
     q = ctx.quick
-    return {"Keys": {0, 1, 2}, "MaxN": 6 if q else 8, "Full": 2 if q else 3, "Mod": 16, "Salt": ctx.rng.randrange(1000), "MaxParts": 4, "MaxBranchIn": 6 if q else 9}
+    return {"Keys": {0, 1, 2}, "MaxN": 6 if q else 8, "Full": 2 if q else 3, "Mod": 16 if q else 24, "Salt": ctx.rng.randrange(1000), "MaxParts": 4, "MaxBranchIn": 6 if q else 9}
 
 
 INVARIANTS = ["ShuffleContractOK", "ClassesPartition", "SortSane", "SetIndexSane", "DedupSane", "UniqueSane", "StagedOK"]
